@@ -1,8 +1,8 @@
 """Per-property configuration of the orchestrator."""
 PROPS = {
     'C19': dict(
-        engines=[('vmon', 'c19')],
-        technique='runtime monitoring: recursive-baseline oracle over the public Node API on corpus + mutated trees',
+        engines=[('vmon', 'c19'), ('asan', 'c19')],
+        technique='runtime monitoring: recursive-baseline oracle over the public Node API on corpus + mutated trees; thorough tier repeats the workload per language in an AddressSanitizer build',
         level_text=('Every node of ~0.6 M (quick) / several M (thorough) nodes of real and damaged trees in 23 languages is checked against an '
                     'independent recursive baseline; held on the executions observed, nothing is proved.'),
         level_note='Trusted: children() as baseline, tree-sitter parse itself, the harness line/column routine. Two tree-sitter cursor defects are known findings.',
@@ -16,8 +16,8 @@ PROPS = {
                      'sibling-sequence clause skipped under parents that have a zero-width child (statement)'],
     ),
     'C10': dict(
-        engines=[('vmon', 'c10')],
-        technique='runtime monitoring: differential oracle (incrementally edited document vs fresh parse) over random edit histories',
+        engines=[('vmon', 'c10'), ('asan', 'c10')],
+        technique='runtime monitoring: differential oracle (incrementally edited document vs fresh parse) over random edit histories; thorough tier repeats the workload per language in an AddressSanitizer build (unsafe as_mut_vec splice, tree-sitter edit/reparse)',
         rule=('per corpus file (23 languages) random histories of 1-14 (quick) / 1-40 (thorough) operations through AstGrep::edit and '
               'AstGrep::replace: leaf replaced by shorter/longer/multi-byte token, statement deleted/duplicated, insertion at offset 0 and at EOF, '
               'blank lines added/removed, replacement from a real pattern match. After every step source() must equal the harness splice and, '
@@ -26,7 +26,7 @@ PROPS = {
               'Non-trivial = distinct histories with >= 2 steps in which a length-changing edit precedes a later compared step.'),
         floor={'quick': 300, 'thorough': 5000},
         level_text=('Thousands of edit steps on real sources are compared node by node with a fresh parse; held on the histories executed. '
-                    'ASan/valgrind shards of the same workload are described in DESIGN.md §4.'),
+                    'The thorough tier also runs the workload inside an AddressSanitizer build, one process per language (DESIGN.md §9.7).'),
         level_note='Trusted: tree-sitter produces the same tree for a correct InputEdit as for a fresh parse when the text is error-free (measured: silent on >10k steps after the fix of the duplicate tree.edit).',
         assumptions=['only steps whose resulting text parses without ERROR/MISSING nodes are compared (statement)'],
     ),
@@ -47,7 +47,7 @@ PROPS = {
                      'An+B strings outside the strict CSS grammar carry no verdict'],
     ),
     'C02': dict(
-        engines=[('vmon', 'c02')],
+        engines=[('vmon', 'c02'), ('asan', 'c02')],
         technique='runtime monitoring: generated patterns cut from real code, premise checked structurally, match outcome and bindings asserted at all five strictness levels',
         rule=('pattern cutter over every corpus file (23 languages): an error-free named node is turned into a pattern by replacing 0-4 non-overlapping named descendants with '
               '$V0.. or a trailing run of named children with $$$V. The premise "same tree shape" is CHECKED by structural alignment of the public PatternNode tree with the node '
@@ -113,8 +113,8 @@ PROPS = {
         level_note='Trusted: Pre-order dfs() (checked by C19), match_node on a single node (judged by C02-C05). The prune hooks only ADD evaluation; the CLI comparison uses the hooked release binary.',
     ),
     'C06': dict(
-        engines=[('vmon', 'c06')],
-        technique='runtime monitoring: invariant assertions on every proposed edit + splice oracle for the rewritten text and for rewrite transformations',
+        engines=[('vmon', 'c06'), ('asan', 'c06')],
+        technique='runtime monitoring: invariant assertions on every proposed edit + splice oracle for the rewritten text and for rewrite transformations (one or two rewriters, joinBy); thorough tier repeats the workload in an AddressSanitizer build',
         rule=('per corpus excerpt (23 languages) and per multi-byte / CRLF / syntax-error variant: cut patterns with (a) string fixes (literal, Unicode, multi-line, reordered variables), '
               '(b) object fixes with expandStart/expandEnd (regex / kind rules, stopBy neighbor|end|rule), (c) rewrite transforms with a rewriter (kind or kind+pattern, literal or wrapping fix, '
               'optional joinBy, optional expansions). For every match of the overlap-free visitor the edit must lie inside the file on character boundaries with valid UTF-8, start at the match '
@@ -141,8 +141,8 @@ PROPS = {
         assumptions=['indentation clause restricted as in the statement (spaces only, no blank or under-indented continuation lines)'],
     ),
     'C12': dict(
-        engines=[('vmon', 'c12')],
-        technique='runtime monitoring: generator-known consistency oracle (valid documents with exactly one perturbation) + reference template expansion for every accepted document',
+        engines=[('vmon', 'c12'), ('asan', 'c12')],
+        technique='runtime monitoring: generator-known consistency oracle (valid documents with exactly one perturbation) + reference template expansion for every accepted document; thorough tier repeats the workload in an AddressSanitizer build (registration mutates shared maps through a raw pointer)',
         rule=('valid rule documents are assembled from parts for 7 languages (pattern with two variables, optional utilities used through has/all/not, constraints, a chain of 0-3 transformations, a '
               'rewriter + rewrite transform, string or object fix over all defined variables); then one of 16 perturbation classes is applied: variable in fix renamed (string / object form), transform '
               'source undefined, constraints key undefined, referenced utility removed, rewriter removed, transform self-dependent / cyclic, utility requiring itself through matches / all / any / not / '
@@ -215,7 +215,7 @@ PROPS = {
         engines=[('py', 'c17')],
         cli=True,
         level='fault_enumeration',
-        technique='runtime monitoring: offline checker over the producer/consumer event log (hook H3) with injected delays at produce/send/recv + differential oracle (tree run vs union of single-file runs) + fault injection per file',
+        technique='runtime monitoring: offline checker over the producer/consumer event log (hook H3) with injected delays at produce/send/recv + differential oracle (tree run vs union of single-file runs) + fault injection per file + a many-files / slow-consumer workload; thorough tier repeats runs on a ThreadSanitizer build of the CLI (std instrumented)',
         rule=('generated trees of 40-90 (quick) / 50-400 (thorough) small js/py/rs/html/txt files in nested directories, searched with `ast-grep run -p .. -l js --json=stream -j N .` and '
               '`ast-grep scan -c sgconfig.yml --json=stream -j N .` (4 rules, 4 languages, html with injected script/style) for N in {1,2,4,8,16} (quick) / 1..16 (thorough), each repeated with '
               'differently seeded failpoint delays (produce up to 2 ms, send up to 2 ms, recv up to 3 ms) and once without. Oracle: the sorted multiset of records equals the union of the records of one '
